@@ -57,7 +57,10 @@ def _cache_key(module, cfg, extra):
     the configuration and the arguments: they do not read /repo. Their output is kept and reused while none of these change."""
     import hashlib, glob
     h = hashlib.sha1()
-    for f in sorted(glob.glob(os.path.join(SPEC, "*.tla"))):
+    deps = {"MC.tla": ["MC", "Cobweb", "Props"], "Gen.tla": ["Gen", "MC", "Cobweb", "Props"], "AutoDespawn.tla": ["AutoDespawn"],
+            "ADGen.tla": ["ADGen", "AutoDespawn"], "Syscall.tla": ["Syscall"], "SCGen.tla": ["SCGen", "Syscall"]}
+    files = [os.path.join(SPEC, m + ".tla") for m in deps[module]] if module in deps else sorted(glob.glob(os.path.join(SPEC, "*.tla")))
+    for f in files:
         h.update(f.encode()); h.update(open(f, "rb").read())
     h.update(open(cfg, "rb").read())
     h.update(repr((module, list(extra))).encode())
